@@ -136,7 +136,7 @@ def Monitor.demoRun : Run Monitor.St Monitor.Op Monitor.step where
 theorem Signal.d9_idle (t : Tid) : Signal.d9.pc t = .idle := by
   by_cases h1 : t = 1 <;> by_cases h2 : t = 2 <;>
     simp [Signal.d9, Signal.d8, Signal.d7, Signal.d6, Signal.d5, Signal.d4, Signal.d3, Signal.d2, Signal.d1, Signal.d0,
-      Signal.step, Signal.init, Signal.done, Signal.goto, Signal.loopHead, Option.getD, upd, h1, h2]
+      Signal.step, Signal.init, Signal.done, Signal.goto, Signal.loopHead, Signal.relazy, Option.getD, upd, h1, h2]
 
 theorem Monitor.d11_idle (t : Tid) : Monitor.d11.pc t = .idle := by
   by_cases h1 : t = 1 <;> by_cases h2 : t = 2 <;>
